@@ -397,7 +397,7 @@ theorem C07_cancel_all_forgets (p : Pool) (h : p.doCancelAll.2 = .none) : p.doCa
 def C07_demo : History :=
   [.mkpool (some 1) none none,
    .on 0 [] (.apply 1 (some "A") Pool.gatedSpec),
-   .on 0 [] (.map 0 [⟨false⟩, ⟨false⟩, ⟨false⟩] 1 (some "M") Pool.gatedSpec),
+   .on 0 [] (.map 0 [{ bad := false }, { bad := false }, { bad := false }] 1 (some "M") Pool.gatedSpec),
    .run 0 [], .run 0 [], .run 0 [],
    .on 0 [[]] (.cancelGroup "M")]
 
